@@ -74,6 +74,8 @@ pub enum MsgR {
     BfBatchDone,
     PsShareRequest(u8),
     PsSharePeers(Vec<(u8, u16, bool)>),
+    /// a peer that answers with (many) more distinct addresses than anybody asked for
+    PsSharePeersMany(u16),
     PsDone,
     TxInit,
     TxRequestTxIds(bool, u16, u16),
@@ -116,7 +118,7 @@ impl MsgR {
             CsRequestNext | CsAwaitReply | CsRollForward(..) | CsRollBackward(..) | CsFindIntersect(_)
             | CsIntersectFound(..) | CsIntersectNotFound(_) | CsDone => "chainsync",
             BfRequestRange(..) | BfClientDone | BfStartBatch | BfNoBlocks | BfBlock(_) | BfBatchDone => "blockfetch",
-            PsShareRequest(_) | PsSharePeers(_) | PsDone => "peersharing",
+            PsShareRequest(_) | PsSharePeers(_) | PsSharePeersMany(_) | PsDone => "peersharing",
             TxInit | TxRequestTxIds(..) | TxReplyTxIds(_) | TxRequestTxs(_) | TxReplyTxs(_) | TxDone => "txsubmission",
             LnRequestNext | LnBlockAnnouncement(_) | LnBlockOffer(..) | LnBlockTxsOffer(_) | LnVotes(_) | LnDone => "leiosnotify",
             LfBlockRequest(_) | LfBlock(_) | LfBlockTxsRequest(..) | LfBlockTxs(..) | LfDone => "leiosfetch",
@@ -167,6 +169,9 @@ impl MsgR {
                         }
                     })
                     .collect(),
+            )),
+            PsSharePeersMany(n) => AnyMessage::PeerSharing(ps::Message::SharePeers(
+                (0..*n).map(|i| ps::PeerAddress::V4(std::net::Ipv4Addr::new(172, 16, (i >> 8) as u8, i as u8), 3001)).collect(),
             )),
             PsDone => AnyMessage::PeerSharing(ps::Message::Done),
             TxInit => AnyMessage::TxSubmission(tx::Message::Init),
@@ -227,6 +232,7 @@ pub fn any_msg() -> impl Strategy<Value = MsgR> {
         Just(BfBatchDone),
         any::<u8>().prop_map(PsShareRequest),
         prop::collection::vec((1u8..30, 3000u16..3040, any::<bool>()), 0..4).prop_map(PsSharePeers),
+        prop_oneof![Just(99u16), Just(100), Just(101), Just(255), Just(256), 0u16..600].prop_map(PsSharePeersMany),
         Just(PsDone),
         Just(TxInit),
         (any::<bool>(), 0u16..5, 0u16..5).prop_map(|(a, b, c)| TxRequestTxIds(a, b, c)),
